@@ -12,22 +12,26 @@
 (***************************************************************************)
 EXTENDS Integers, Sequences, FiniteSets, TLC
 
-CONSTANTS MAXR, AT, Horizon, QueuedMs,
+CONSTANTS MAXR, AT, Horizon, QueuedMs, Deadlines,
           RespStopsWait     \* a response that arrives before the ACK completes the call (RFC 7252 4.2 / 5.2.2 reading)
 
 \* The request may first have waited behind the NSTART limit (queued > 0, in milliseconds of real time): the clock of
 \* the exchange starts at its FIRST TRANSMISSION (the entry's start stamp is taken when the entry is stored, after the
 \* slot was acquired), so the time spent queued changes nothing below.
-SQ(q) == [queued |-> q, clock |-> 0, entry |-> TRUE, retr |-> 0, copies |-> <<0>>,   \* the first copy goes out at time 0
+\* The caller's context may carry a deadline (dl ticks after the first transmission, 0 = none): the sweep drops the entry
+\* once it has passed (midElement.IsExpired) - and otherwise changes nothing: attempts are still bounded by MAX_RETRANSMIT.
+SQD(q, dl) == [queued |-> q, dl |-> dl, clock |-> 0, entry |-> TRUE, retr |-> 0, copies |-> <<0>>,   \* the first copy goes out at time 0
        pc |-> "waitAck",            \* waitAck | waitResp | ok | err
        got |-> FALSE,               \* a response sits in the call's one-slot channel
        acked |-> FALSE, rst |-> FALSE, cancelled |-> FALSE, exhausted |-> FALSE]
+SQ(q) == SQD(q, 0)
 S0 == SQ(0)
 
 Waiting(s) == s.pc \in {"waitAck", "waitResp"}
 Tick(s, t) ==
   IF t <= s.clock \/ t > Horizon THEN {}
   ELSE IF ~s.entry THEN {[s EXCEPT !.clock = t]}
+  ELSE IF s.dl # 0 /\ t > s.dl THEN {[s EXCEPT !.clock = t, !.entry = FALSE, !.exhausted = TRUE]}
   ELSE IF s.retr >= MAXR THEN {[s EXCEPT !.clock = t, !.entry = FALSE, !.exhausted = TRUE]}
   ELSE IF t > AT * (s.retr + 1) THEN {[s EXCEPT !.clock = t, !.retr = s.retr + 1, !.copies = Append(s.copies, t)]}
   ELSE {[s EXCEPT !.clock = t]}
